@@ -130,6 +130,27 @@ impl<K: Kmer + Send + Sync> IterModel<K> {
             if key != rest {
                 return (false, format!("remaining output {:?}, model {:?}", key.iter().map(|x| ascii(x)).collect::<Vec<_>>(), rest.iter().map(|x| ascii(x)).collect::<Vec<_>>()), key, endless, after_end);
             }
+            // the consuming methods on a fresh iterator brought to the same point: what is left, not the whole node
+            let advance = || {
+                let mut it = self.g.get_node_kmer(self.node).into_iter();
+                for op in hist {
+                    match op {
+                        Op::Next => it.next(),
+                        Op::Nth(x) => it.nth(*x),
+                    };
+                }
+                it
+            };
+            // (len()/size_hint() are only promised "up front" - the crate reports the node's total throughout - so
+            // they are judged on the fresh iterator only)
+            let c = advance().count();
+            if c != rest.len() {
+                return (false, format!("after the history count() = {}, {} k-mers are left", c, rest.len()), key, endless, after_end);
+            }
+            let l = advance().last().map(|k| kstr(&k));
+            if l.as_ref() != rest.last() {
+                return (false, format!("after the history last() = {:?}, model {:?}", l.map(|x| ascii(&x)), rest.last().map(|x| ascii(x))), key, endless, after_end);
+            }
             (true, String::new(), key, endless, after_end)
         }));
         match r {
